@@ -1,4 +1,5 @@
 import BR.Lemmas.AC
+import BR.Lemmas.Inline
 import BR.Gen.Tables
 /-!
 # C11 — the action cache stores and serves only valid ActionResults, unchanged
@@ -79,6 +80,55 @@ theorem valid_iff (ar : ActionResult) :
 /-- the order and wording of the validator's tests, regenerated from the source -/
 theorem validator_source_shape : BR.Gen.validate_regexps = ["^[a-f0-9]{64}$"] := by decide
 
+/-! ### the documented server-side changes on the way out: inlining (model M8b, `BR.Inline`) -/
+
+/-- **inlining changes the representation, never the contents**: after `GetActionResult` has
+visited stdout, stderr and the output files — inlining what the request asks for and the budget
+allows, moving other inline bytes to the CAS — every field still stands for the bytes it stood for
+(inline, or under the digest it carries), the CAS has only grown and every entry sits under its true
+digest.  Hypotheses: no SHA-256 collision, a consistent CAS, and stored fields whose digest is the
+digest of their inline bytes (what the upload path verified). -/
+theorem inlining_preserves_contents {α} (o : BR.Inline.Ops α) (max : Int) (hn : BR.Inline.NoColl o)
+    (items : List (Bool × Bool × BR.Inline.Field α)) (cas : BR.Inline.Cas α) (fs : List (BR.Inline.Field α)) (sf : Int) (c : BR.Inline.Cas α)
+    (h : BR.Inline.pipeline o max items 0 cas = some (fs, sf, c)) (hc : BR.Inline.CasOk o cas)
+    (hcons : ∀ it ∈ items, BR.Inline.Consistent o it.2.2) :
+    fs.length = items.length ∧
+    (∀ p ∈ items.zip fs, ∀ a, BR.Inline.content cas p.1.2.2 = some a → BR.Inline.content c p.2 = some a) ∧
+    BR.Inline.CasOk o c ∧ (∀ d a, cas.get d = some a → c.get d = some a) := by
+  obtain ⟨h1, h2, h3, h4, _⟩ := BR.Inline.pipeline_spec o max hn items 0 cas fs sf c h hc hcons
+  exact ⟨h3, h4, h1, h2⟩
+
+/-- **the inlining budget**: with the de-inlining uploads succeeding, the bytes inlined into one
+answer never exceed `maxInlineSize` (3 MiB, so that the message stays below gRPC's 4 MiB limit) -/
+theorem inlining_keeps_budget {α} (o : BR.Inline.Ops α) (hn : BR.Inline.NoColl o)
+    (items : List (Bool × Bool × BR.Inline.Field α)) (cas : BR.Inline.Cas α) (fs : List (BR.Inline.Field α)) (sf : Int) (c : BR.Inline.Cas α)
+    (h : BR.Inline.pipeline o BR.Inline.maxInlineSize items 0 cas = some (fs, sf, c)) (hc : BR.Inline.CasOk o cas)
+    (hcons : ∀ it ∈ items, BR.Inline.Consistent o it.2.2) (hput : ∀ it ∈ items, it.2.1 = true) :
+    sf ≤ BR.Inline.maxInlineSize :=
+  (BR.Inline.pipeline_spec o _ hn items 0 cas fs sf c h hc hcons).2.2.2.2 hput (by decide)
+
+/-- **as the request asks and the budget allows**: a requested field that fits comes back inline
+with its contents; a field that is not requested, or does not fit, comes back by (true) digest with
+its bytes in the CAS and does not count against the budget -/
+theorem inline_request_honoured {α} (o : BR.Inline.Ops α) (max : Int) (putOk : Bool) (f : BR.Inline.Field α) (sofar : Int)
+    (cas : BR.Inline.Cas α) (a : α) (hfit : BR.Inline.fits o max f sofar = true) (hcont : BR.Inline.content cas f = some a)
+    (hpos : ∀ d, f.raw = none → f.dig = some d → d.size > 0) :
+    ∃ s, BR.Inline.maybeInline o max putOk true f sofar cas = some s ∧ s.field.raw = some a :=
+  BR.Inline.maybeInline_inlines o max putOk f sofar cas a hfit hcont hpos
+
+theorem not_requested_is_by_digest {α} (o : BR.Inline.Ops α) (max : Int) (want : Bool) (f : BR.Inline.Field α) (sofar : Int)
+    (cas : BR.Inline.Cas α) (hw : (want && BR.Inline.fits o max f sofar) = false) (hf : BR.Inline.Consistent o f) :
+    ∃ s, BR.Inline.maybeInline o max true want f sofar cas = some s ∧ s.field.raw = none ∧ s.sofar = sofar ∧
+      (∀ a, f.raw = some a → s.field.dig = some (BR.Inline.trueDigest o a) ∧ s.cas.get (BR.Inline.trueDigest o a) ≠ none) :=
+  BR.Inline.maybeInline_deinlines o max want f sofar cas hw hf
+
+/-! non-vacuity of the inlining theorems: stdout stored inline (2 MiB) and an output file of 2 MiB by
+digest, both requested: the first stays inline, the second does not fit next to it -/
+def tokOps : BR.Inline.Ops (String × Int) := { len := fun a => a.2, hash := fun a => a.1 }
+example : (BR.Inline.pipeline tokOps BR.Inline.maxInlineSize
+    [(true, true, ⟨some ("out", 2097152), none⟩), (true, true, ⟨none, some ⟨"file", 2097152⟩⟩)] 0 [(⟨"file", 2097152⟩, ("file", 2097152))]).map
+      (fun r => (r.1.map (fun f => f.raw.isSome), r.2.1)) = some ([true, false], 2097152) := by decide
+
 /-! non-vacuity -/
 def okHash : String := "aaaaaaaaaaaaaaaaaaaaaaaaaaaaaaaaaaaaaaaaaaaaaaaaaaaaaaaaaaaaaaaa"
 example : validate (ActionResult.mk [some ⟨"out/f", some ⟨okHash, 3⟩, false⟩] [] [] [some ⟨"l", "t"⟩] []
@@ -89,4 +139,8 @@ example : validate (ActionResult.mk [some ⟨"out/f", some ⟨okHash, 3⟩, fals
 #print axioms invalid_rejected
 #print axioms invalid_classes
 #print axioms valid_iff
+#print axioms inlining_preserves_contents
+#print axioms inlining_keeps_budget
+#print axioms inline_request_honoured
+#print axioms not_requested_is_by_digest
 end BR.Props.C11
